@@ -92,6 +92,7 @@ func genRetCase(e *Env) *jRetCase {
 }
 
 func runRetCase(e *Env, c *jRetCase) error {
+	e.Running(c)
 	dir := tempDir()
 	defer rmDir(dir)
 	t := &c.Table
